@@ -1192,4 +1192,206 @@ theorem frames_one_line (t : Tree) (hc : chainOk true t.root = true)
   · rw [← hs.1, ← hs.2.1]; exact hrepr c hcm
 
 
+
+/-! ### more about the rows of a tree (for clause 3) -/
+
+/-- a row of `_unpack_stack` from a call `h`: its frame is entered at or after `h`, its branches after it -/
+theorem unpack_row_facts (t : Tree) (hc : chainOk true t.root = true) (h : Nat) (h1 : 1 ≤ h) (h2 : h < 1 + t.root.size)
+    (r : Row) (hr : r ∈ unpack (replay (events t)) h) :
+    h ≤ r.frame ∧ r.frame < 1 + t.root.size ∧ ∀ b, b ∈ r.branches → r.frame < b ∧ b < 1 + t.root.size := by
+  obtain ⟨hsz, hf⟩ := replay_frames t hc
+  obtain ⟨r', hm, hfr, hbr, _⟩ := unpack_mem_rowsAt t hc h h1 h2 r hr
+  have hrange := rowsAt_frame_range t.root 1 h r' hm h1
+  rw [← hfr] at hrange
+  refine ⟨hrange.1, hrange.2, ?_⟩
+  intro b hb
+  have hsome := frameAt_isSome t.root 0 none 1 r.frame (by omega) hrange.2
+  obtain ⟨f, hff⟩ := Option.isSome_iff_exists.mp hsome
+  have hbo := unpack_branches _ h r hr
+  have hbm : b ∈ f.childErrors := by
+    rw [hbo] at hb
+    simp only [branchesOf, hf r.frame (by omega), hff] at hb
+    cases hlc : f.lastChild with
+    | none => rw [hlc] at hb; simp at hb
+    | some c =>
+      rw [hlc] at hb
+      simp only at hb
+      split at hb
+      · simp at hb
+      · exact hb
+  exact frameAt_childErrors_range t.root 0 none 1 r.frame f hff (by omega) b hbm
+
+/-- every rendered row's frame is entered at or after the start -/
+theorem shownRows_frame_ge (t : Tree) (hc : chainOk true t.root = true) :
+    ∀ (fuel h d : Nat), 1 ≤ h → h < 1 + t.root.size → ∀ p, p ∈ shownRows (replay (events t)) fuel h d → h ≤ p.2.frame
+  | 0, _, _, _, _, p, hp => by simp [shownRows] at hp
+  | fuel + 1, h, d, h1, h2, p, hp => by
+    rw [shownRows_succ] at hp
+    obtain ⟨r, hr, hp⟩ := List.mem_flatMap.mp hp
+    obtain ⟨hr1, hr2, hr3⟩ := unpack_row_facts t hc h h1 h2 r hr
+    rcases List.mem_cons.mp hp with hp | hp
+    · subst hp; exact hr1
+    · obtain ⟨b, hb, hp⟩ := List.mem_flatMap.mp hp
+      have := shownRows_frame_ge t hc fuel b (d + 1) (by have := hr3 b hb; omega) (hr3 b hb).2 p hp
+      have := hr3 b hb
+      omega
+
+/-- a row rendered `k` levels below the start is entered at least `k` calls after it -/
+theorem shownRows_depth_le (t : Tree) (hc : chainOk true t.root = true) :
+    ∀ (fuel h d : Nat), 1 ≤ h → h < 1 + t.root.size → ∀ p, p ∈ shownRows (replay (events t)) fuel h d →
+      p.1 + h ≤ d + p.2.frame
+  | 0, _, _, _, _, p, hp => by simp [shownRows] at hp
+  | fuel + 1, h, d, h1, h2, p, hp => by
+    rw [shownRows_succ] at hp
+    obtain ⟨r, hr, hp⟩ := List.mem_flatMap.mp hp
+    obtain ⟨hr1, hr2, hr3⟩ := unpack_row_facts t hc h h1 h2 r hr
+    rcases List.mem_cons.mp hp with hp | hp
+    · subst hp; simp only; omega
+    · obtain ⟨b, hb, hp⟩ := List.mem_flatMap.mp hp
+      have := shownRows_depth_le t hc fuel b (d + 1) (by have := hr3 b hb; omega) (hr3 b hb).2 p hp
+      have := hr3 b hb
+      omega
+
+theorem mem_dropLast_cons {α} (a : α) (X : List α) (r : α) (h : r ∈ (a :: X).dropLast) :
+    X ≠ [] ∧ (r = a ∨ r ∈ X.dropLast) := by
+  cases X with
+  | nil => simp at h
+  | cons b Y =>
+    simp only [List.dropLast_cons_cons, List.mem_cons] at h
+    exact ⟨by simp, h⟩
+
+/-- **only the last row of the loop can have branches** (the loop goes on below a row only when the
+    row's single failed segment is its last one) -/
+theorem rowsAt_nonlast_branches : ∀ (K : Kids) (n j : Nat) (r : Row), r ∈ (rowsAt n K j).dropLast → r.branches = [] := by
+  intro K
+  induction K with
+  | nil => intro n j r h; simp [rowsAt] at h
+  | cons ch i ks res rest ihks ihrest =>
+    intro n j r h
+    by_cases hjn : j = n
+    · subst hjn
+      cases hrs : rest.startsChained with
+      | true =>
+        have hrows : rowsAt j (.cons ch i ks res rest) j =
+            ⟨j, segRes rest, []⟩ :: (if (segRes rest).isNone then [] else rowsAt (j + 1 + ks.size) rest (j + 1 + ks.size)) := by
+          rw [rowsAt]; simp only [if_true, hrs]
+        rw [hrows] at h
+        obtain ⟨_, h'⟩ := mem_dropLast_cons _ _ r h
+        rcases h' with h' | h'
+        · subst h'; rfl
+        · by_cases hsn : (segRes rest).isNone = true
+          · rw [if_pos hsn] at h'; simp at h'
+          · rw [if_neg hsn] at h'; exact ihrest _ _ r h'
+      | false =>
+        cases hlh : lastHead none (j + 1) ks with
+        | none =>
+          have hrows : rowsAt j (.cons ch i ks res rest) j = [⟨j, res, []⟩] := by
+            rw [rowsAt]; simp only [if_true, hrs, Bool.false_eq_true, if_false, hlh]
+          rw [hrows] at h; simp at h
+        | some h0 =>
+          generalize hbr : (if failedHeads j none (j + 1) ks == [h0] then [] else failedHeads j none (j + 1) ks) = br
+          have hrows : rowsAt j (.cons ch i ks res rest) j =
+              ⟨j, res, br⟩ :: (if br.contains h0 then [] else if (lastRes ks).isNone then [] else rowsAt (j + 1) ks h0) := by
+            rw [rowsAt]
+            simp only [if_true, hrs, Bool.false_eq_true, if_false, hlh, hbr]
+          rw [hrows] at h
+          obtain ⟨hne, h'⟩ := mem_dropLast_cons _ _ r h
+          by_cases hc1 : br.contains h0 = true
+          · rw [if_pos hc1] at hne; exact absurd rfl hne
+          · rw [if_neg hc1] at hne h'
+            by_cases hc2 : (lastRes ks).isNone = true
+            · rw [if_pos hc2] at hne; exact absurd rfl hne
+            · rw [if_neg hc2] at h'
+              rcases h' with h' | h'
+              · subst h'
+                simp only
+                -- the loop goes on: the last sub-evaluation raised, so its head is a failed head
+                by_cases hfh : (failedHeads j none (j + 1) ks == [h0]) = true
+                · rw [← hbr, if_pos hfh]
+                · exfalso
+                  cases hlk : lastRes ks with
+                  | none => rw [hlk] at hc2; simp at hc2
+                  | some x =>
+                    have hgl := failedHeads_getLast x ks j none (j + 1) hlk
+                    rw [hlh] at hgl
+                    have hmem : h0 ∈ failedHeads j none (j + 1) ks := List.mem_of_getLast? hgl
+                    rw [← hbr, if_neg hfh] at hc1
+                    exact hc1 (by simpa using hmem)
+              · exact ihks _ _ r h'
+    · by_cases hjk : j < n + 1 + ks.size
+      · have heq : rowsAt n (.cons ch i ks res rest) j = rowsAt (n + 1) ks j := by
+          simp only [rowsAt, if_neg hjn, if_pos hjk]
+        rw [heq] at h; exact ihks _ _ r h
+      · have heq : rowsAt n (.cons ch i ks res rest) j = rowsAt (n + 1 + ks.size) rest j := by
+          simp only [rowsAt, if_neg hjn, if_neg hjk]
+        rw [heq] at h; exact ihrest _ _ r h
+
+/-- the frames of the rows of the loop increase -/
+theorem rowsAt_sorted : ∀ (K : Kids) (n j : Nat), n ≤ j → ((rowsAt n K j).map (·.frame)).Pairwise (· < ·) := by
+  intro K
+  induction K with
+  | nil => intro n j _; simp [rowsAt]
+  | cons ch i ks res rest ihks ihrest =>
+    intro n j hnj
+    by_cases hjn : j = n
+    · subst hjn
+      cases hrs : rest.startsChained with
+      | true =>
+        have hrows : rowsAt j (.cons ch i ks res rest) j =
+            ⟨j, segRes rest, []⟩ :: (if (segRes rest).isNone then [] else rowsAt (j + 1 + ks.size) rest (j + 1 + ks.size)) := by
+          rw [rowsAt]; simp only [if_true, hrs]
+        rw [hrows]
+        simp only [List.map_cons, List.pairwise_cons]
+        by_cases hsn : (segRes rest).isNone = true
+        · rw [if_pos hsn]; simp
+        · rw [if_neg hsn]
+          refine ⟨?_, ihrest _ _ (Nat.le_refl _)⟩
+          intro a ha
+          obtain ⟨r, hr, rfl⟩ := List.mem_map.mp ha
+          have := rowsAt_frame_range rest _ _ r hr (Nat.le_refl _)
+          omega
+      | false =>
+        cases hlh : lastHead none (j + 1) ks with
+        | none =>
+          have hrows : rowsAt j (.cons ch i ks res rest) j = [⟨j, res, []⟩] := by
+            rw [rowsAt]; simp only [if_true, hrs, Bool.false_eq_true, if_false, hlh]
+          rw [hrows]; simp
+        | some h0 =>
+          generalize hbr : (if failedHeads j none (j + 1) ks == [h0] then [] else failedHeads j none (j + 1) ks) = br
+          have hrows : rowsAt j (.cons ch i ks res rest) j =
+              ⟨j, res, br⟩ :: (if br.contains h0 then [] else if (lastRes ks).isNone then [] else rowsAt (j + 1) ks h0) := by
+            rw [rowsAt]
+            simp only [if_true, hrs, Bool.false_eq_true, if_false, hlh, hbr]
+          rw [hrows]
+          have hlr := lastHead_range ks none (j + 1) h0 hlh
+          simp only [List.map_cons, List.pairwise_cons]
+          by_cases hc1 : br.contains h0 = true
+          · rw [if_pos hc1]; simp
+          · rw [if_neg hc1]
+            by_cases hc2 : (lastRes ks).isNone = true
+            · rw [if_pos hc2]; simp
+            · rw [if_neg hc2]
+              refine ⟨?_, ihks _ _ hlr.1⟩
+              intro a ha
+              obtain ⟨r, hr, rfl⟩ := List.mem_map.mp ha
+              have := rowsAt_frame_range ks _ _ r hr hlr.1
+              omega
+    · by_cases hjk : j < n + 1 + ks.size
+      · have heq : rowsAt n (.cons ch i ks res rest) j = rowsAt (n + 1) ks j := by
+          simp only [rowsAt, if_neg hjn, if_pos hjk]
+        rw [heq]; exact ihks _ _ (by omega)
+      · have heq : rowsAt n (.cons ch i ks res rest) j = rowsAt (n + 1 + ks.size) rest j := by
+          simp only [rowsAt, if_neg hjn, if_neg hjk]
+        rw [heq]; exact ihrest _ _ (by omega)
+
+theorem clearErr_append_singleton : ∀ (A0 : List Row) (last : Row),
+    clearErr (A0 ++ [last]) = A0.map (fun r => { r with error := none }) ++ [last]
+  | [], last => rfl
+  | [a], last => rfl
+  | a :: b :: r, last => by
+    have := clearErr_append_singleton (b :: r) last
+    simp only [List.cons_append] at this ⊢
+    simp only [clearErr, this, List.map_cons]
+    rfl
+
 end Glom.C05
